@@ -16,7 +16,7 @@ RULE = (
 )
 EXPLANATION = "proof tier: VCs from the real AST with permute_systems / swap / partial_transpose seen only through their contracts; bounded tier labelled bounded_*"
 TRUSTED = [
-    "mixed-radix rule (digit regrouping in reshape)",
+    "mixed-radix rule (digit regrouping in reshape; re-proved in lean/MixedRadix.lean)",
     "numpy primitives under assumed contracts: np.reshape(order=F), np.transpose(axes), np.flipud on the 2xk dimension table, dim[:, sys] fancy store/load, .T.flatten()",
     "S-set-order (ascending set difference), S-float-dims (np.round(np.sqrt(.)), x / y, np.ones(k)*x/y, int(float)) exact on integral values",
     "callee contracts used (not bodies): permute_systems, swap (proved under C01), partial_transpose (for realignment)",
